@@ -27,6 +27,7 @@ class Prog:
         self.funcs = []      # (name, text)
         self.nfunc = 0
         self.spun = False
+        self.fstack = []     # names of the functions being generated (innermost last)
 
     def newtag(self):
         self.tag += 1
@@ -40,6 +41,11 @@ class Prog:
         if self.rng.randrange(4) == 0:
             return "PP(c, %d, %d)" % (depth, self.newtag())
         return "&c->pt[%d]" % depth
+
+    def self_instance(self, depth):
+        """another instance of the function being generated, run to completion on the second
+        context (which has no second context of its own, so the recursion ends there)"""
+        return "if (c->alt) PT_CALL(&c->alt->pt[%d], FN(%s)(c->alt));" % (depth, self.fstack[-1])
 
     def cond(self, call_safe):
         r = self.rng
@@ -130,6 +136,10 @@ class Prog:
                 out.append("\t" + r.choice(["PT_YIELD();", "PT_WAIT();"]))
                 out.append("T(c, %d);" % self.newtag())
                 continue
+            if call_safe and r.randrange(25) == 0:
+                out.append(self.self_instance(depth))
+                out.append("T(c, %d);" % self.newtag())
+                continue
             if k < 22:
                 out += self.effect()
             elif k < 34:
@@ -169,6 +179,9 @@ class Prog:
                 if kind < 5:
                     child = self.func(depth + 1, call_safe)
                     out.append("PT_SPAWN(%s, FN(%s)(c));" % (self.childp(depth + 1), child))
+                    if call_safe and r.randrange(3) == 0:
+                        # not a blocking point of this function: the child's result must survive it
+                        out.append(self.self_instance(depth))
                     # PT_CHILD_OK is consulted before the next blocking point
                     out.append("T(c, PT_CHILD_OK() ? %d : %d);" % (self.newtag(), self.newtag()))
                 elif kind < 8:
@@ -210,7 +223,9 @@ class Prog:
         self.nfunc += 1
         idx = len(self.funcs)
         self.funcs.append(None)
+        self.fstack.append(name)
         body = self.block(depth, 0, 0, 7 if depth else 9, call_safe, False)
+        self.fstack.pop()
         lines = ["static int FN(%s)(ptctx_t *c)" % name, "{", "\tPT_BEGIN(&c->pt[%d]);" % depth]
         lines.append("\tT(c, %d);" % self.newtag())
         lines += ["\t" + l for l in body]
